@@ -100,6 +100,14 @@ let () =
              let b x = x = "1" in
              Printf.printf "%s OK %s\n" id (hex_of_bytes (enc_fheader_of (n_of_dec wl) (b cs) (b ck) (b nd) (b ml) (n_of_dec pl) (n_of_dec di)))
            | _ -> Printf.printf "%s ERR badfhdr 0\n" id)
+        end else if getstr "xxh=" <> None then begin
+          (* streaming checksum: xxh=<seed> ; dict field = chunks (hex) separated by '_' *)
+          (match getstr "xxh=" with
+           | Some sd ->
+             let chunks = List.map (fun c -> bytes_of_hex (if c = "" then "-" else c)) (String.split_on_char '_' dhex) in
+             let st = List.fold_left xupdate (xreset (n_of_dec sd)) chunks in
+             Printf.printf "%s OK %s\n" id (string_of_n (xdigest st))
+           | None -> ())
         end else if getstr "skip=" <> None then begin
           (* skippable frame writer: skip=<variant> ; dict field = payload hex *)
           (match getstr "skip=" with
